@@ -395,6 +395,48 @@ func (x *FnExec) eval(fr *frame, e Expr, c *evalCtx) (Val, error) {
 			return Val{S: fmt.Sprintf("(forall (%s) %s)", strings.Join(binders, " "), b), T: types.Typ[types.Bool]}, nil
 		}
 		b = and(g, b)
+		// same rewriting for an existential (as a goal it is refuted as a universal, which needs the same trigger)
+		if len(e.Vars) == 1 && x.q.mode != ModeBV && os.Getenv("TVC_NO_AUTOPAT") == "" && extra[e.Vars[0].Name].Sort == x.q.intSort() {
+			sym := extra[e.Vars[0].Name].S
+			slices := map[string]bool{}
+			for _, u := range uses {
+				if u.idx == sym {
+					slices[u.slice] = true
+				}
+			}
+			if len(slices) == 1 {
+				var sl string
+				for k := range slices {
+					sl = k
+				}
+				x.q.fresh["qv_abs"]++
+				j := fmt.Sprintf("|j?abs%d|", x.q.fresh["qv_abs"])
+				rel := fmt.Sprintf("(- %s (s_off %s))", j, sl)
+				ex2 := map[string]Val{e.Vars[0].Name: {S: rel, T: extra[e.Vars[0].Name].T, Sort: x.q.intSort()}}
+				nc2 := c.with(ex2)
+				nc2.depth = c.depth + 1
+				body2, err2 := x.eval(fr, e.Body, nc2)
+				if err2 == nil {
+					g2 := "true"
+					if t := extra[e.Vars[0].Name].T; t != nil {
+						g2 = x.validFact(rel, t, 0)
+					}
+					seenP := map[string]bool{}
+					ps := ""
+					for _, u := range uses {
+						if u.idx != sym {
+							continue
+						}
+						pt := sel(sel(u.heap, "(s_arr "+u.slice+")"), j)
+						if !seenP[pt] && len(seenP) < 3 {
+							seenP[pt] = true
+							ps += " :pattern (" + pt + ")"
+						}
+					}
+					return Val{S: fmt.Sprintf("(exists ((%s %s)) (! %s%s))", j, x.q.intSort(), and(g2, body2.S), ps), T: types.Typ[types.Bool]}, nil
+				}
+			}
+		}
 		return Val{S: fmt.Sprintf("(exists (%s) %s)", strings.Join(binders, " "), b), T: types.Typ[types.Bool]}, nil
 	}
 	return Val{}, fmt.Errorf("cannot evaluate %s", e)
